@@ -3,20 +3,68 @@
    (CFeed InEof | InErr | InAlert, handled by the receive task), transport write failure (CFail, then any
    write), all at any point of any schedule. Every theorem quantifies over all programs and schedules. *)
 From Coq Require Import List NArith Arith.
-From AnyTLS Require Import Bytes Cmd Generated Frame Conc ConcInv ConcLin ConcDeath ConcTerm.
+From AnyTLS Require Import Bytes Cmd Generated Frame Conc ConcInv ConcLin ConcDeath ConcTerm ConcStall.
 Import ListNotations.
 
 (* 1. nothing can be blocked by the session's own locks: in every reachable state every task is finished,
       waiting for the PEER (data not yet sent / verdict not yet sent: released by 3. below or by the open
       timer CTimeout), the forwarding task waiting for the local APPLICATION's next chunk (parked in recv() of
       the outbound channel; woken by the next send or by close()), able to step, or queued on the writer
-      mutex behind a holder that is able to step *)
+      mutex behind a holder that is able to step.
+      The model includes the transport that stops accepting bytes (CStall: the peer no longer reads; nothing
+      fails). `in_transport s t`: t is inside `writer.write_all(..).await` on such a transport, holding the writer
+      mutex -- the one await under a session lock that no timer bounds. The full statement, true of the code as it
+      is, therefore has two more alternatives (the last two below); they are the known finding F4, see 1b. *)
 Theorem C09_no_deadlock : forall progs buf pend sched t,
   let s := run (init progs buf pend) sched in
   finished s t \/ (awaits_peer s t \/ awaits_app s t) \/ step s t <> None \/
-  (waits_pc (pcof s t) = true /\ exists h, wr s = Some h /\ step s h <> None).
+  (waits_pc (pcof s t) = true /\ exists h, wr s = Some h /\ (step s h <> None \/ in_transport s h)) \/
+  in_transport s t.
 Proof. intros. apply no_deadlock. apply run_inv. apply inv_init. Qed.
 Print Assumptions C09_no_deadlock.
+
+(* 1a. as long as the transport has not stalled (every cause of termination the property lists: owner close, peer
+       EOF, read error, fatal Alert, write failure), the statement the property asks for *)
+Theorem C09_no_deadlock_live : forall progs buf pend sched t,
+  let s := run (init progs buf pend) sched in
+  stalled s = false ->
+  finished s t \/ (awaits_peer s t \/ awaits_app s t) \/ step s t <> None \/
+  (waits_pc (pcof s t) = true /\ exists h, wr s = Some h /\ step s h <> None).
+Proof. intros progs buf pend sched t s St. apply no_deadlock_live; [apply run_inv; apply inv_init | exact St]. Qed.
+Print Assumptions C09_no_deadlock_live.
+
+(* 1b. KNOWN FINDING F4, proved of the model for every program and schedule: once a write is inside the stalled
+       transport, it is there for ever, it keeps the writer mutex for ever, the transport is never shut down, and
+       everything queued on the mutex stays queued: a close() -- whoever calls it: the owner, the receive task
+       after EOF / error / Alert, the liveness monitor -- never returns, a queued writer never gets its error *)
+Theorem C09_known_F4_wedged_forever : forall progs buf pend sched0 h sched,
+  let s := run (init progs buf pend) sched0 in
+  wedged s h ->
+  let s' := run s sched in
+  wedged s' h /\ forall w, In w (waiters s) -> In w (waiters s') /\ pcof s' w = pcof s w.
+Proof. intros progs buf pend sched0 h sched s W. apply wedged_forever; [apply run_inv; apply inv_init | exact W]. Qed.
+Print Assumptions C09_known_F4_wedged_forever.
+
+Theorem C09_known_F4_close_never_returns : forall progs buf pend sched0 h w a k sched,
+  let s := run (init progs buf pend) sched0 in
+  wedged s h -> pcof s w = PC2wait a k ->
+  let s' := run s sched in
+  pcof s' w = PC2wait a k /\ shut s' = false /\ ~ quiescent_close s' /\ ~ finished s' w.
+Proof.
+  intros progs buf pend sched0 h w a k sched s W P.
+  apply (wedged_close_never_returns s h w a k sched); [apply run_inv; apply inv_init | exact W | exact P].
+Qed.
+Print Assumptions C09_known_F4_close_never_returns.
+
+(* the finding is not vacuous: task 1 writes a frame and is inside the transport when task 2 makes it stall; the
+   owner (task 3) calls close(): the session is flagged closed, the tables are drained -- and close() sits in the
+   lock queue behind task 1, under every continuation *)
+Example C09_known_F4_witness :
+  let progs := [[]; [CDisableBuf; CWrite {| fcmd := Waste; fsid := 0; fdata := [1] |}]; [CStall]; [CClose]] in
+  let s := run (init progs false []) [1;1;1;1;1;2;1;3;3;3;3]%nat in
+  wedged s 1%nat /\ closed s = true /\ shut s = false /\ pcof s 3%nat = PC2wait AfterClose WkPlain /\
+  step s 1%nat = None /\ step s 3%nat = None.
+Proof. cbv zeta. unfold wedged, in_transport. repeat split; try (vm_compute; reflexivity). vm_compute. eauto. Qed.
 
 (* 2. ... and never for long: under ANY schedule a task takes at most `progw program` steps in total
       (8 per write, 11 per open, 3 per close, 9 per iteration of the forwarding loop, 1 otherwise), so every granted step is progress towards the end *)
@@ -26,7 +74,7 @@ Proof. intros. apply budget. assumption. Qed.
 Print Assumptions C09_bounded_steps.
 
 (* 3. once the session is closed -- by whatever cause -- and nobody is still inside close(), the transport
-      is shut down and the two stream tables (`streams`, `stream_receive_tx`) hold nothing that any caller can reach:
+      is shut down (or has stalled: close() gives its shutdown one second, `shutdown_tr`) and the two stream tables (`streams`, `stream_receive_tx`) hold nothing that any caller can reach:
       open_stream examines the closed flag, allocates the id, inserts the inbound queue into one table and the stream
       into the other -- four separate steps, no lock spans any two. An entry left in a table of a dead session was
       inserted by an open_stream call that had examined the flag BEFORE close() ran and did its insert AFTER the
@@ -35,7 +83,7 @@ Print Assumptions C09_bounded_steps.
 Theorem C09_dead_session : forall progs buf pend sched,
   let s := run (init progs buf pend) sched in
   closed s = true -> quiescent_close s ->
-  shut s = true /\
+  (shut s = true \/ stalled s = true) /\
   (forall sid u, In (sid, u) (table s) -> late_entry s sid u) /\
   (forall sid u, In (sid, u) (rtable s) -> late_entry_r s sid u).
 Proof. exact (fun progs buf pend sched => dead_session_released sched progs buf pend). Qed.
